@@ -1745,6 +1745,7 @@ func (t *Tree) CopyNode(n *Node) *Node {
 	out := t.NewNode()
 	out.name = n.name
 	out.depth = n.depth
+	out.rootdepth = n.rootdepth
 	out.id = n.id
 	out.comment = make([]string, len(n.comment))
 	for i, c := range n.comment {
